@@ -234,6 +234,20 @@ func replayMain(args []string) {
 	if p == nil {
 		die2("scenario for unknown property %q", sc.Property)
 	}
+	if sc.Expect != nil && sc.Expect.Class == "no-return" && !*quiet {
+		// the recorded violation is that this history does not come to an end: give it the same limit, then say so
+		done := make(chan *RunReport, 1)
+		go func() { done <- runScenario(p, sc, false) }()
+		select {
+		case r := <-done:
+			fmt.Printf("replay: the history finished (%d violations): the recorded violation did not reproduce\n", len(r.Violations))
+			os.Exit(0)
+		case <-time.After(stallLimit):
+			fmt.Printf("replay: violation class=no-return: the history has not finished after %v\n  %s\n", stallLimit, sc.Expect.Detail)
+			fmt.Printf("VIOLATION property=%s replay=%s\n", sc.Property, *file)
+			os.Exit(1)
+		}
+	}
 	rep := runScenario(p, sc, *trace)
 	if sc.Expect != nil && sc.Expect.Class == "data-race" && !*quiet {
 		// the execution is identical every time; whether the race detector can still restore the older access's stack
